@@ -338,7 +338,7 @@ def inputs(ctx):
     thorough = ctx.tier != "quick"
     p = Pools(rng, thorough)
     cases = [("directed", c) for c in directed(p)]
-    n = 2600 if thorough else 290
+    n = 2000 if thorough else 290
     for i in range(n):
         longest = 60 if (thorough and i % 4 == 0) else 25
         k = rng.randint(3, longest)
